@@ -312,3 +312,58 @@ def call_leaves(b, op, depth=0, seen=None):
                 if rv.get(k2) is not None:
                     out |= call_leaves(b, rv[k2], depth + 1, seen)
     return out
+
+
+def ok_payload_terms(f, b):
+    """Rendered terms of the values `b` can return inside Ok(..): the payload of every `Ok{..}` it builds, looking through
+    `.map_err(..)` and `.map(closure)` on a Result it returns as a whole (the closure's value, its parameter bound to the Ok payload)."""
+    from terms import TermBuilder, render
+    import idioms
+    tb = TermBuilder(b)
+    out = []
+
+    def walk(t, depth=0):
+        if depth > 8 or not isinstance(t, tuple) or not t:
+            out.append("?")
+            return
+        if t[0] == "phi":
+            for a in t[1]:
+                walk(a, depth + 1)
+            return
+        if t[0] == "agg" and str(t[1]).endswith("Result::Ok") and t[2]:
+            out.append(render(t[2][0]))
+            return
+        if t[0] == "agg" and str(t[1]).endswith("Result::Err"):
+            return
+        if t[0] == "call" and t[1].endswith("FromResidual::from_residual"):
+            return
+        if t[0] == "call" and t[1].endswith("Result::<T, E>::map_err") and t[2]:
+            walk(t[2][0], depth + 1)
+            return
+        if t[0] == "call" and t[1].endswith("Result::<T, E>::map") and len(t[2]) == 2:
+            ret, _pn = idioms._closure_ret(f, t[2][1])
+            if ret is not None:
+                out.append(render(ret))
+                return
+        out.append(render(t))
+    walk(tb.term({"l": 0, "p": []}))
+    return out
+
+
+def per_element_calls(f, body, call, rx):
+    """For `iter.try_for_each(closure)` / `for_each`: the closure's calls matching `rx`, each with the term of its first argument
+    (closure environment resolved: the closure's item reads `Iterator::next(<iterator>)`).  -> [(Call, rendered first-argument term)]"""
+    from terms import TermBuilder, render
+    if not re.search(r"^std::iter::Iterator::(try_for_each|for_each)$", call.decl) or len(call.args) < 2:
+        return []
+    out = []
+    for lf in body.origins(call.args[-1], passthrough={}):
+        if lf["kind"] == "agg" and lf["stmt"]["rv"].get("ak") == "closure":
+            cb = f.bodies.get(lf["stmt"]["rv"]["closure"])
+            if cb is None:
+                continue
+            tcb = TermBuilder(cb, closure_env=True)
+            for c in cb.calls():
+                if re.search(rx, c.decl) and c.args:
+                    out.append((c, render(tcb.term(c.args[0]))))
+    return out
